@@ -247,34 +247,50 @@ fn prof(line: &str) -> String {
         }
     });
     let mut rets: Vec<String> = Vec::new();
+    let mut panicked: Option<String> = None;
     for r in &reqs {
-        unsafe {
+        // A panic (the tally's overflow check in a debug build) ends the run;
+        // what the mock received and answered before it is still reported.
+        let one = catch_unwind(AssertUnwindSafe(|| unsafe {
             match r[0] {
                 "a" => {
                     let l = Layout::from_size_align(num(r[1]), num(r[2])).expect("layout");
-                    rets.push((PROF.alloc(l) as usize).to_string());
+                    (PROF.alloc(l) as usize).to_string()
                 }
                 "z" => {
                     let l = Layout::from_size_align(num(r[1]), num(r[2])).expect("layout");
-                    rets.push((PROF.alloc_zeroed(l) as usize).to_string());
+                    (PROF.alloc_zeroed(l) as usize).to_string()
                 }
                 "r" => {
                     let l = Layout::from_size_align(num(r[2]), num(r[3])).expect("layout");
-                    rets.push((PROF.realloc(num(r[1]) as *mut u8, l, num(r[4])) as usize).to_string());
+                    (PROF.realloc(num(r[1]) as *mut u8, l, num(r[4])) as usize).to_string()
                 }
                 "d" => {
                     let l = Layout::from_size_align(num(r[2]), num(r[3])).expect("layout");
                     PROF.dealloc(num(r[1]) as *mut u8, l);
-                    rets.push("-".into());
+                    "-".to_string()
                 }
                 _ => panic!("bad request {:?}", r),
+            }
+        }));
+        match one {
+            Ok(v) => rets.push(v),
+            Err(e) => {
+                panicked = Some(hxlib::classify_panic(hxlib::panic_msg(&e)).to_string());
+                break;
             }
         }
     }
     let log = LOG.with(|g| g.borrow().join(","));
     let left = SCRIPT.with(|s| s.borrow().len());
     let info = v::thread_alloc_info().map(|i| fmt_info(&i)).unwrap_or_else(|| "no-thread-info".into());
-    format!("log={} ret={} unused={} tally={}", log, rets.join(","), left, &info[3..])
+    match panicked {
+        Some(k) => {
+            // answers scripted for the panicking request and the ones after it stay unused
+            format!("panic {} log={} ret={} unused={}", k, log, rets.join(","), left)
+        }
+        None => format!("log={} ret={} unused={} tally={}", log, rets.join(","), left, &info[3..]),
+    }
 }
 
 /// `churn`: runs the sibling binary `hx-alloc-global <threads> <rounds> <seed>`
